@@ -1,11 +1,19 @@
 """C08 - Alternative arc specifications equal the analytic circle.
 
-Tie (N): Model/C08_Arcs.v transcribes arc_from_theta, arc_from_origin (both branches), arc_mid,
-arc_length_3point, ArcEdgeBase.length and polyline_length as real-valued functions.  For every generated
-case the real edge classes of /repo are run (AngleEdge / OriginEdge / ArcEdge / SplineEdge ... built by the
-edge factory on Vertex objects), the doubles they return are turned into exact dyadic literals and Coq
-decides (tactic `interval`, 64 then 120 bits, staged enclosures: Proofs/C08_Corr.v) that the model applied to the same inputs agrees within the tolerance
-of DESIGN 2.4, including the branch the code took.  The theorems of Properties/C08.v are about that model.
+Tie (N, source): Model/C08_Arcs.v transcribes arc_from_theta, arc_from_origin (both branches), arc_mid,
+arc_length_3point, ArcEdgeBase.length and polyline_length as real-valued functions.
+* The vector code - arc_from_theta (angle.py), arc_from_origin incl. the centre-adjustment and flatness branches
+  (origin.py), arc_mid / divide_arc(count=1), arc_length_3point, unit_vector, norm (functions.py) - is translated from the
+  WORKING TREE on every run by harness/translate_np.py (python ast -> Gallina, fail closed: any node outside its fragment
+  is a GenError) into coq/Gen/C08/Source.v, and Proofs/C08_SourceEq.v - compiled on every run - proves that every
+  translated function equals the model's function for ALL arguments on which the python text has a real-number reading
+  (C08_source_is_model; the side conditions - no division by zero, i.e. no numpy nan - are hypotheses of the lemmas).
+* For every generated case the real edge classes of /repo are run (AngleEdge / OriginEdge / ArcEdge / SplineEdge ... built by
+  the edge factory on Vertex objects), the doubles they return are turned into exact dyadic literals and Coq decides (tactic
+  `interval`, 64 then 120 bits, staged enclosures: Proofs/C08_Corr.v) that the model applied to the same inputs agrees
+  within the tolerance of DESIGN 2.4, including the branch the code took.  This now validates the translator's reading of
+  numpy float semantics (and remains the only tie for ArcEdgeBase.length / is_valid and polyline_length).
+The theorems of Properties/C08.v are about that model, hence (C08_on_source) about the translated source.
 
 Direct oracle (independent of the Coq model): every case is generated FROM an analytic circle
 (centre, radius, orthonormal frame, angles), so the expected third point and the expected length
@@ -14,10 +22,12 @@ radius*angle are known without looking at any formula of the code.
 import hashlib
 import json
 import math
+import os
 import re
 import warnings
 
 import core
+import translate_np
 from core import CorrResult, GenError, Prop
 
 TWO_PI = 2 * math.pi
@@ -710,19 +720,61 @@ CORPUS = [
 ]
 
 
+# ------------------------------------------------------------------------------------------------
+# the source itself: which functions are translated (harness/translate_np.py), with the types of their parameters
+
+SRC_MODULES = {
+    "classy_blocks.util.functions": "util/functions.py",
+    "classy_blocks.items.edges.arcs.angle": "items/edges/arcs/angle.py",
+    "classy_blocks.items.edges.arcs.origin": "items/edges/arcs/origin.py",
+}
+_F, _A, _O = list(SRC_MODULES)
+SRC_ENTRIES = [  # (module, function, {parameter: "vec" | "real" | "bool" | literal}); the Gallina name is src_<function>
+    (_F, "norm", {"matrix": "vec"}),
+    (_F, "unit_vector", {"vect": "vec"}),
+    (_F, "divide_arc", {"axis": "vec", "center": "vec", "point_1": "vec", "point_2": "vec", "count": 1}),
+    (_F, "arc_mid", {"axis": "vec", "center": "vec", "point_1": "vec", "point_2": "vec"}),
+    (_F, "arc_length_3point", {"p_start": "vec", "p_btw": "vec", "p_end": "vec"}),
+    (_A, "arc_from_theta", {"edge_point_1": "vec", "edge_point_2": "vec", "angle": "real", "axis": "vec"}),
+    (_O, "arc_from_origin", {"edge_point_1": "vec", "edge_point_2": "vec", "center": "vec", "adjust_center": "bool",
+                             "r_multiplier": "real"}),
+]
+
+
+def translate_source():
+    """-> (text of Gen/C08/Source.v, the translator)"""
+    root = os.path.join(core.REPO, "src", "classy_blocks")
+    tr = translate_np.Translator({m: os.path.join(root, rel) for m, rel in SRC_MODULES.items()})
+    for (m, f, sig) in SRC_ENTRIES:
+        tr.entry(m, f, sig)
+    text = tr.source_text("C08: " + ", ".join("%s.%s" % (m.split(".")[-1], f) for (m, f, _s) in SRC_ENTRIES)
+                          + " of the working tree of /repo.")
+    return text, tr
+
+
 class C08(Prop):
     pid = "C08"
     title = "Alternative arc specifications equal the analytic circle"
     prebuilt = ["Base/Vec3.v", "Model/C08_Arcs.v", "Proofs/C08_Theta.v", "Proofs/C08_Chord.v", "Proofs/C08_ThreePoint.v", "Proofs/C08_Corr.v",
                 "Proofs/C08_Circle.v", "Proofs/C08_Length.v", "Proofs/C08_Reflex.v"]
-    gen_dependent_files = ["Gen/C08/Consts.v"]
+    gen_dependent_files = ["Gen/C08/Consts.v", "Gen/C08/Source.v", "Proofs/C08_SourceEq.v"]
     property_files = ["Properties/C08.v"]
     trusted = [
-        "hand-written model Model/C08_Arcs.v of arc_from_theta / arc_from_origin / arc_mid / arc_length_3point / "
-        "ArcEdgeBase.length / polyline_length; tied to the code by sampled, kernel-decided numeric agreement (interval, 64/120 bits), "
-        "not for all inputs",
+        "the numpy-vector AST translator harness/translate_np.py (angle.py, origin.py, functions.py -> Gen/C08/Source.v; "
+        "Proofs/C08_SourceEq.v proves translated source = model for all arguments on every run, theorem C08_source_is_model). "
+        "Its fragment: " + translate_np.FRAGMENT + ".  Its reading of python / numpy is what is trusted: floats as reals, float "
+        "literals as the decimal numbers written, a division by zero / sqrt, arccos, tan outside their domain (numpy: inf / nan "
+        "and a RuntimeWarning, python floats: an exception or a complex number) as 'no value' (None) - the equality lemmas "
+        "carry the corresponding non-degeneracy hypotheses (origin_dom, cross(dp, axis) <> 0, |denominator| >= 1e-18); "
+        "warnings.warn as a no-op; run-time tie: the functions the library calls are the parsed ones (file, first line) and "
+        "np / f / constants are the modules assumed",
+        "hand-written model Model/C08_Arcs.v: for arc_from_theta / arc_from_origin / arc_mid / arc_length_3point / unit_vector no "
+        "longer trusted (proved equal to the translated source); for ArcEdgeBase.length / is_valid and polyline_length (class "
+        "properties and array slicing, outside the translator's fragment) still tied by sampled, kernel-decided numeric "
+        "agreement only (interval, 64/120 bits)",
         "numpy/scipy floating point arithmetic read as real arithmetic within 1e-9 relative (1e-6 where acos is evaluated "
-        "within 1e-6 of its end points)",
+        "within 1e-6 of its end points): validated on every run by the interval correspondence between the doubles the edge "
+        "classes return and the model that is proved equal to the translated source",
         "constants.TOL is read from the working tree into Gen/C08/Consts.v on every run",
     ]
     partial = [
@@ -746,6 +798,15 @@ class C08(Prop):
                "From Coq Require Import Reals.\nFrom CB Require Import Base.Vec3.\nOpen Scope R_scope.\n"
                "(* constants.TOL = %r *)\nDefinition tol_const : R := %s.\n" % (tol, R_(tol)))
         ctx.write_gen("Consts", txt)
+        # the source itself: python -> Gallina (fail closed), proved equal to the model by Proofs/C08_SourceEq.v
+        text, tr = translate_source()
+        tr.tie_to_runtime()
+        want = {"src_" + f for (_m, f, _s) in SRC_ENTRIES}
+        got = {d["coq"] for d in tr.summary}
+        if not want <= got:
+            raise GenError("translated definitions %r lack %r" % (sorted(got), sorted(want - got)))
+        ctx.write_gen("Source", text)
+        ctx.log("S1: arc code translated: %d definitions (%s)" % (len(tr.summary), ", ".join(d["coq"] for d in tr.summary)))
 
     # -- S3 --------------------------------------------------------------------------------------
     def make_cases(self, ctx):
@@ -775,7 +836,10 @@ class C08(Prop):
 
     def correspond(self, ctx):
         res = CorrResult()
-        res.rule = ("cases generated from analytic circles (centre in [-30,30]^3, radius 10^U(-1,2), random orthonormal frame, "
+        res.rule = ("[arc_from_theta, arc_from_origin, arc_mid, arc_length_3point, unit_vector: the model is proved equal to the "
+                    "translated source for all arguments (Proofs/C08_SourceEq.v); these samples validate the translator's reading of "
+                    "numpy float semantics and tie ArcEdgeBase.length / polyline_length] "
+                    "cases generated from analytic circles (centre in [-30,30]^3, radius 10^U(-1,2), random orthonormal frame, "
                     "sector angle in (0.06, 2pi-0.06) of either sign incl. pi, pi+-1e-3..3e-2; origin arcs with equidistant / "
                     "off-centre origin / flatness; three-point arcs with the given point anywhere on the arc; polylines; other edge "
                     "kinds for the chord bound); each run through the edge factory of /repo; compared in Coq: third point, length "
